@@ -143,7 +143,11 @@ def run(prog, chk):
 
     # ---- evaluator call sites -------------------------------------------------------------
     n_gate = n_meas = n_reset = n_alloc = 0
+    from ..kcanon import inline_closures
     for f in evfns:
+        # local closures that are called as plain statements (`auto resetAndRelease = [&](int q) {…}; … resetAndRelease(q);`) are
+        # read where they are called
+        f = inline_closures(prog, f)
         if not any(R.is_sim_call(n) for n in SX.walk(f.body, into_lambdas=False)):
             continue
         g = prog.cfg(f)
